@@ -1,6 +1,7 @@
 // Line-protocol driver around the real library: one operation per input line, one canonical
 // output line per operation. usage: harness_main [opsfile]   (stdin when absent)
 #include <atomic>
+#include <ext/stdio_filebuf.h>
 #include <fstream>
 #include <iostream>
 #include <random>
@@ -24,6 +25,12 @@ int main(int argc, char **argv) {
     in = &f;
   }
   std::ios::sync_with_stdio(false);
+  // The library logs some rejections with printf (DRACO_LOGE, e.g. "KdTreeAttributesDecoder: compression level 8 not
+  // supported."): keep the line protocol on a private copy of stdout and send everything else written to fd 1 to stderr,
+  // so that the log lines cannot shift the outputs (as robust_main does).
+  auto *proto_buf = new __gnu_cxx::stdio_filebuf<char>(dup(1), std::ios::out);   // lives until exit (cout is flushed then)
+  dup2(2, 1);
+  std::cout.rdbuf(proto_buf);
   std::string line;
   // C19: VH_THREADS=N runs the operations concurrently on N threads (thread t executes the
   // lines i with i % N == t, start-aligned, with random yields); output is printed in input order.
